@@ -24,7 +24,7 @@ ConeS == [s \in SS |-> CASE s = "a" -> {"a/x", "a/b/0", "a/b/c/w"} [] s = "ab" -
 NoCone == [s \in {} |-> {}]
 OpsMain == {"reset-hard", "checkout-force", "checkout-force-create", "checkout", "checkout-twin", "checkout-create", "reset-merge", "reset-keep", "add", "add-all", "remove", "move", "clean", "commit", "status"}
 \* C29 adds the calls that must be refused outright, resets to HEAD itself and pull
-OpsRefusal == {"pull", "reset-merge-head", "reset-keep-head", "reset-hard-badsparse", "reset-merge-badsparse", "reset-keep-badsparse", "reset-mixed-badsparse",
+OpsRefusal == {"pull", "merge-ff", "merge-nonff", "merge-unsupported", "reset-merge-head", "reset-keep-head", "reset-hard-badsparse", "reset-merge-badsparse", "reset-keep-badsparse", "reset-mixed-badsparse",
                "reset-hard-missing", "checkout-create-existing", "checkout-missing-branch", "checkout-branch-and-hash", "checkout-force-missing-hash"}
 OpsMainR == OpsMain \cup OpsRefusal
 OpsNoMoveR == OpsMainR \ {"move"}
